@@ -573,7 +573,7 @@ class CSVWriter extends rbql.RBQLOutputWriter {
 
     simple_join(fields) {
         var res = fields.join(this.delim);
-        if (fields.join('').indexOf(this.delim) != -1) {
+        if (fields.some((v) => String(v).indexOf(this.delim) != -1)) {
             this.delim_in_simple_output = true;
         }
         return res;
